@@ -46,7 +46,9 @@ constexpr nterm<int> S("S"); constexpr nterm<int> L("L");
 template<bool Ctxl, int K, class R> constexpr auto attach(R r) { if constexpr (Ctxl) return r >>= CF<K>{}; else return r >= NF<K>{}; }
 template<unsigned M> constexpr auto make_parser() {
     return parser(S, terms('a', 'b'), nterms(S, L), rules(
-        attach<(M & 1) != 0, 0>(S(L)), attach<(M & 2) != 0, 1>(L()), attach<(M & 4) != 0, 2>(L(L, 'a')), attach<(M & 8) != 0, 3>(L(L, 'b'))));
+        attach<(M & 1) != 0, 0>(S(L)), attach<(M & 2) != 0, 1>(L()),
+        attach<(M & 4) != 0, 2>(L(L, 'a')[1]),        // explicit precedence given before the functor is attached
+        attach<(M & 8) != 0, 3>(L(L, 'b'))[2]));        // ... and after: neither order may lose the functor's kind
 }
 
 static long g_checks = 0, g_fail = 0, g_cases = 0; static std::string g_first; static long g_ctx_calls = 0;
